@@ -70,7 +70,11 @@ def run_impl(case, outcome):
         b = Buffer()
         b.max_buffer_size_before_frontal_cleanup = case["threshold"]
         calls = []
-        for piece in case["pieces"]:
+        group = case.get("group", 1)          # append `group` pieces, then process once (the API allows it)
+        pieces = case["pieces"]
+        merged = []
+        all_got = []
+        for k in range(0, len(pieces), group):
             got = []
 
             def cb(m):
@@ -78,14 +82,24 @@ def run_impl(case, outcome):
                 if len(got) > 10000:
                     raise Watchdog("callback flood")
 
-            b.append(piece)
+            for piece in pieces[k:k + group]:
+                b.append(piece)
+            merged.append("".join(pieces[k:k + group]))
             with time_limit(20):
                 b.process(cb)
+            all_got.extend(got)
             calls.append(enc_list(lambda m: enc_msg(msg_view(m)), got) + " ; " + enc_str(b.data))
-        outcome.nontrivial.add((case["threshold"], tuple(case["pieces"])))
+        outcome.nontrivial.add((case["threshold"], tuple(case["pieces"]), group))
         outcome.count("session-pieces", len(case["pieces"]))
+        outcome.count("appends-per-process:%d" % group)
         T = "~" if case["threshold"] is None else str(case["threshold"])
-        qs.append(Query("xml session %s %s" % (T, enc_list(enc_str, case["pieces"])), (" | ".join(calls), UNS), "corr"))
+        qs.append(Query("xml session %s %s" % (T, enc_list(enc_str, merged)), (" | ".join(calls), UNS), "corr",
+                        "Buffer (append x%d, then process) against the buffer model fed the same characters" % group))
+        if group > 1 and case.get("admissible"):
+            # C02: what has been delivered once everything arrived does not depend on how the stream was fed
+            flat = enc_list(lambda m: enc_msg(msg_view(m)), all_got) + " ; " + enc_str(b.data)
+            qs.append(Query("xml sessionflat %s %s" % (T, enc_list(enc_str, ["".join(pieces)])), (flat, UNS), "oracle",
+                            "C02: with %d appends per process() call the messages delivered differ from feeding the stream whole" % group))
     elif op == "transport":
         qs.extend(run_transport(case, outcome))
     else:
@@ -150,16 +164,26 @@ def run_transport(case, outcome):
         def unregister_client(self, c):
             pass
 
+    died = []
+
     async def main():
         if kind == "server":
             h = stcp.ConnectionHandler(_PieceReader(pieces), _NullWriter(), Rec())
         else:
             h = ctcp.ConnectionHandler(_PieceReader(pieces), _NullWriter(), got.append, for_blobs=(kind == "client-blob"))
-        with time_limit(60):
-            await h.wait_for_messages()
+        try:
+            with time_limit(60):
+                await h.wait_for_messages()
+        except (KeyboardInterrupt, SystemExit):
+            raise
+        except BaseException as e:  # noqa
+            died.append(type(e).__name__)
         return h
 
     h = asyncio.run(main())
+    if died:
+        outcome.count("receive-loop-died:" + died[0])
+        return [Query("spec istrue False", "True", "oracle", "the receive loop of the %s handler died with %s on a byte stream cut into %d pieces" % (kind, died[0], len(pieces)))]
     T = "~" if kind == "client-blob" else "2048"
     text_pieces = [p.decode("latin1") for p in pieces]
     flat = enc_list(lambda m: enc_msg(msg_view(m)), got) + " ; " + enc_str(h.buffer.data)
@@ -357,6 +381,13 @@ def gen_session(rng, tier):
                 if sum(len(p) for p in pieces) > 2500 or len(pieces) > 400:
                     continue
                 yield {"op": "session", "threshold": case["threshold"], "pieces": pieces}
+                adm = (gen is comp_buf.gen_c02 and case.get("segs") is not None and case.get("corrupt") is None
+                       and case.get("tkind") != "one-below")
+                if len(pieces) >= 2 and k % 3 == 0:
+                    yield {"op": "session", "threshold": case["threshold"], "pieces": pieces, "group": 2 + (k // 3) % 2, "admissible": adm}
+                    # the classic shape: a whole message, its trailing newline as a piece of its own, then process
+                    yield {"op": "session", "threshold": case["threshold"], "pieces": [p for piece in pieces for p in (piece[:-1], piece[-1:]) if p][:60], "group": 2,
+                           "admissible": adm and len(pieces) <= 30}
 
 
 def gen_transport(rng, tier):
